@@ -464,21 +464,20 @@ func (m *memory) Objects(ctx context.Context, s *node.Node, p *predicate.Predica
 	selectedTrpls := applyGlobalTimeBounds(m.idxSP[spIdx], ckr)
 
 	var err error
+	// The lookup options belong to the caller (who may share them between
+	// concurrent lookups): LatestAnchor is turned into a filter locally.
+	filterOptions := lo.FilterOptions
 	if lo.LatestAnchor {
-		if lo.FilterOptions != nil {
+		if filterOptions != nil {
 			return fmt.Errorf("cannot have LatestAnchor and FilterOptions used at the same time inside lookup options")
 		}
-		lo.FilterOptions = &filter.StorageOptions{
+		filterOptions = &filter.StorageOptions{
 			Operation: filter.Latest,
 			Field:     filter.PredicateField,
 		}
-		// To guarantee that "lo.FilterOptions" will be cleaned at the driver level, since it was artificially created at the driver level for "LatestAnchor".
-		defer func() {
-			lo.FilterOptions = (*filter.StorageOptions)(nil)
-		}()
 	}
-	if lo.FilterOptions != nil {
-		selectedTrpls, err = executeFilter(selectedTrpls, p, lo.FilterOptions)
+	if filterOptions != nil {
+		selectedTrpls, err = executeFilter(selectedTrpls, p, filterOptions)
 		if err != nil {
 			return err
 		}
@@ -517,21 +516,20 @@ func (m *memory) Subjects(ctx context.Context, p *predicate.Predicate, o *triple
 	selectedTrpls := applyGlobalTimeBounds(m.idxPO[poIdx], ckr)
 
 	var err error
+	// The lookup options belong to the caller (who may share them between
+	// concurrent lookups): LatestAnchor is turned into a filter locally.
+	filterOptions := lo.FilterOptions
 	if lo.LatestAnchor {
-		if lo.FilterOptions != nil {
+		if filterOptions != nil {
 			return fmt.Errorf("cannot have LatestAnchor and FilterOptions used at the same time inside lookup options")
 		}
-		lo.FilterOptions = &filter.StorageOptions{
+		filterOptions = &filter.StorageOptions{
 			Operation: filter.Latest,
 			Field:     filter.PredicateField,
 		}
-		// To guarantee that "lo.FilterOptions" will be cleaned at the driver level, since it was artificially created at the driver level for "LatestAnchor".
-		defer func() {
-			lo.FilterOptions = (*filter.StorageOptions)(nil)
-		}()
 	}
-	if lo.FilterOptions != nil {
-		selectedTrpls, err = executeFilter(selectedTrpls, p, lo.FilterOptions)
+	if filterOptions != nil {
+		selectedTrpls, err = executeFilter(selectedTrpls, p, filterOptions)
 		if err != nil {
 			return err
 		}
@@ -572,21 +570,20 @@ func (m *memory) PredicatesForSubjectAndObject(ctx context.Context, s *node.Node
 	selectedTrpls := applyGlobalTimeBounds(m.idxSO[soIdx], ckr)
 
 	var err error
+	// The lookup options belong to the caller (who may share them between
+	// concurrent lookups): LatestAnchor is turned into a filter locally.
+	filterOptions := lo.FilterOptions
 	if lo.LatestAnchor {
-		if lo.FilterOptions != nil {
+		if filterOptions != nil {
 			return fmt.Errorf("cannot have LatestAnchor and FilterOptions used at the same time inside lookup options")
 		}
-		lo.FilterOptions = &filter.StorageOptions{
+		filterOptions = &filter.StorageOptions{
 			Operation: filter.Latest,
 			Field:     filter.PredicateField,
 		}
-		// To guarantee that "lo.FilterOptions" will be cleaned at the driver level, since it was artificially created at the driver level for "LatestAnchor".
-		defer func() {
-			lo.FilterOptions = (*filter.StorageOptions)(nil)
-		}()
 	}
-	if lo.FilterOptions != nil {
-		selectedTrpls, err = executeFilter(selectedTrpls, nil, lo.FilterOptions)
+	if filterOptions != nil {
+		selectedTrpls, err = executeFilter(selectedTrpls, nil, filterOptions)
 		if err != nil {
 			return err
 		}
@@ -625,21 +622,20 @@ func (m *memory) PredicatesForSubject(ctx context.Context, s *node.Node, lo *sto
 	selectedTrpls := applyGlobalTimeBounds(m.idxS[sUUID], ckr)
 
 	var err error
+	// The lookup options belong to the caller (who may share them between
+	// concurrent lookups): LatestAnchor is turned into a filter locally.
+	filterOptions := lo.FilterOptions
 	if lo.LatestAnchor {
-		if lo.FilterOptions != nil {
+		if filterOptions != nil {
 			return fmt.Errorf("cannot have LatestAnchor and FilterOptions used at the same time inside lookup options")
 		}
-		lo.FilterOptions = &filter.StorageOptions{
+		filterOptions = &filter.StorageOptions{
 			Operation: filter.Latest,
 			Field:     filter.PredicateField,
 		}
-		// To guarantee that "lo.FilterOptions" will be cleaned at the driver level, since it was artificially created at the driver level for "LatestAnchor".
-		defer func() {
-			lo.FilterOptions = (*filter.StorageOptions)(nil)
-		}()
 	}
-	if lo.FilterOptions != nil {
-		selectedTrpls, err = executeFilter(selectedTrpls, nil, lo.FilterOptions)
+	if filterOptions != nil {
+		selectedTrpls, err = executeFilter(selectedTrpls, nil, filterOptions)
 		if err != nil {
 			return err
 		}
@@ -678,21 +674,20 @@ func (m *memory) PredicatesForObject(ctx context.Context, o *triple.Object, lo *
 	selectedTrpls := applyGlobalTimeBounds(m.idxO[oUUID], ckr)
 
 	var err error
+	// The lookup options belong to the caller (who may share them between
+	// concurrent lookups): LatestAnchor is turned into a filter locally.
+	filterOptions := lo.FilterOptions
 	if lo.LatestAnchor {
-		if lo.FilterOptions != nil {
+		if filterOptions != nil {
 			return fmt.Errorf("cannot have LatestAnchor and FilterOptions used at the same time inside lookup options")
 		}
-		lo.FilterOptions = &filter.StorageOptions{
+		filterOptions = &filter.StorageOptions{
 			Operation: filter.Latest,
 			Field:     filter.PredicateField,
 		}
-		// To guarantee that "lo.FilterOptions" will be cleaned at the driver level, since it was artificially created at the driver level for "LatestAnchor".
-		defer func() {
-			lo.FilterOptions = (*filter.StorageOptions)(nil)
-		}()
 	}
-	if lo.FilterOptions != nil {
-		selectedTrpls, err = executeFilter(selectedTrpls, nil, lo.FilterOptions)
+	if filterOptions != nil {
+		selectedTrpls, err = executeFilter(selectedTrpls, nil, filterOptions)
 		if err != nil {
 			return err
 		}
@@ -731,21 +726,20 @@ func (m *memory) TriplesForSubject(ctx context.Context, s *node.Node, lo *storag
 	selectedTrpls := applyGlobalTimeBounds(m.idxS[sUUID], ckr)
 
 	var err error
+	// The lookup options belong to the caller (who may share them between
+	// concurrent lookups): LatestAnchor is turned into a filter locally.
+	filterOptions := lo.FilterOptions
 	if lo.LatestAnchor {
-		if lo.FilterOptions != nil {
+		if filterOptions != nil {
 			return fmt.Errorf("cannot have LatestAnchor and FilterOptions used at the same time inside lookup options")
 		}
-		lo.FilterOptions = &filter.StorageOptions{
+		filterOptions = &filter.StorageOptions{
 			Operation: filter.Latest,
 			Field:     filter.PredicateField,
 		}
-		// To guarantee that "lo.FilterOptions" will be cleaned at the driver level, since it was artificially created at the driver level for "LatestAnchor".
-		defer func() {
-			lo.FilterOptions = (*filter.StorageOptions)(nil)
-		}()
 	}
-	if lo.FilterOptions != nil {
-		selectedTrpls, err = executeFilter(selectedTrpls, nil, lo.FilterOptions)
+	if filterOptions != nil {
+		selectedTrpls, err = executeFilter(selectedTrpls, nil, filterOptions)
 		if err != nil {
 			return err
 		}
@@ -784,21 +778,20 @@ func (m *memory) TriplesForPredicate(ctx context.Context, p *predicate.Predicate
 	selectedTrpls := applyGlobalTimeBounds(m.idxP[pUUID], ckr)
 
 	var err error
+	// The lookup options belong to the caller (who may share them between
+	// concurrent lookups): LatestAnchor is turned into a filter locally.
+	filterOptions := lo.FilterOptions
 	if lo.LatestAnchor {
-		if lo.FilterOptions != nil {
+		if filterOptions != nil {
 			return fmt.Errorf("cannot have LatestAnchor and FilterOptions used at the same time inside lookup options")
 		}
-		lo.FilterOptions = &filter.StorageOptions{
+		filterOptions = &filter.StorageOptions{
 			Operation: filter.Latest,
 			Field:     filter.PredicateField,
 		}
-		// To guarantee that "lo.FilterOptions" will be cleaned at the driver level, since it was artificially created at the driver level for "LatestAnchor".
-		defer func() {
-			lo.FilterOptions = (*filter.StorageOptions)(nil)
-		}()
 	}
-	if lo.FilterOptions != nil {
-		selectedTrpls, err = executeFilter(selectedTrpls, p, lo.FilterOptions)
+	if filterOptions != nil {
+		selectedTrpls, err = executeFilter(selectedTrpls, p, filterOptions)
 		if err != nil {
 			return err
 		}
@@ -837,21 +830,20 @@ func (m *memory) TriplesForObject(ctx context.Context, o *triple.Object, lo *sto
 	selectedTrpls := applyGlobalTimeBounds(m.idxO[oUUID], ckr)
 
 	var err error
+	// The lookup options belong to the caller (who may share them between
+	// concurrent lookups): LatestAnchor is turned into a filter locally.
+	filterOptions := lo.FilterOptions
 	if lo.LatestAnchor {
-		if lo.FilterOptions != nil {
+		if filterOptions != nil {
 			return fmt.Errorf("cannot have LatestAnchor and FilterOptions used at the same time inside lookup options")
 		}
-		lo.FilterOptions = &filter.StorageOptions{
+		filterOptions = &filter.StorageOptions{
 			Operation: filter.Latest,
 			Field:     filter.PredicateField,
 		}
-		// To guarantee that "lo.FilterOptions" will be cleaned at the driver level, since it was artificially created at the driver level for "LatestAnchor".
-		defer func() {
-			lo.FilterOptions = (*filter.StorageOptions)(nil)
-		}()
 	}
-	if lo.FilterOptions != nil {
-		selectedTrpls, err = executeFilter(selectedTrpls, nil, lo.FilterOptions)
+	if filterOptions != nil {
+		selectedTrpls, err = executeFilter(selectedTrpls, nil, filterOptions)
 		if err != nil {
 			return err
 		}
@@ -892,21 +884,20 @@ func (m *memory) TriplesForSubjectAndPredicate(ctx context.Context, s *node.Node
 	selectedTrpls := applyGlobalTimeBounds(m.idxSP[spIdx], ckr)
 
 	var err error
+	// The lookup options belong to the caller (who may share them between
+	// concurrent lookups): LatestAnchor is turned into a filter locally.
+	filterOptions := lo.FilterOptions
 	if lo.LatestAnchor {
-		if lo.FilterOptions != nil {
+		if filterOptions != nil {
 			return fmt.Errorf("cannot have LatestAnchor and FilterOptions used at the same time inside lookup options")
 		}
-		lo.FilterOptions = &filter.StorageOptions{
+		filterOptions = &filter.StorageOptions{
 			Operation: filter.Latest,
 			Field:     filter.PredicateField,
 		}
-		// To guarantee that "lo.FilterOptions" will be cleaned at the driver level, since it was artificially created at the driver level for "LatestAnchor".
-		defer func() {
-			lo.FilterOptions = (*filter.StorageOptions)(nil)
-		}()
 	}
-	if lo.FilterOptions != nil {
-		selectedTrpls, err = executeFilter(selectedTrpls, p, lo.FilterOptions)
+	if filterOptions != nil {
+		selectedTrpls, err = executeFilter(selectedTrpls, p, filterOptions)
 		if err != nil {
 			return err
 		}
@@ -947,21 +938,20 @@ func (m *memory) TriplesForPredicateAndObject(ctx context.Context, p *predicate.
 	selectedTrpls := applyGlobalTimeBounds(m.idxPO[poIdx], ckr)
 
 	var err error
+	// The lookup options belong to the caller (who may share them between
+	// concurrent lookups): LatestAnchor is turned into a filter locally.
+	filterOptions := lo.FilterOptions
 	if lo.LatestAnchor {
-		if lo.FilterOptions != nil {
+		if filterOptions != nil {
 			return fmt.Errorf("cannot have LatestAnchor and FilterOptions used at the same time inside lookup options")
 		}
-		lo.FilterOptions = &filter.StorageOptions{
+		filterOptions = &filter.StorageOptions{
 			Operation: filter.Latest,
 			Field:     filter.PredicateField,
 		}
-		// To guarantee that "lo.FilterOptions" will be cleaned at the driver level, since it was artificially created at the driver level for "LatestAnchor".
-		defer func() {
-			lo.FilterOptions = (*filter.StorageOptions)(nil)
-		}()
 	}
-	if lo.FilterOptions != nil {
-		selectedTrpls, err = executeFilter(selectedTrpls, p, lo.FilterOptions)
+	if filterOptions != nil {
+		selectedTrpls, err = executeFilter(selectedTrpls, p, filterOptions)
 		if err != nil {
 			return err
 		}
@@ -1008,21 +998,20 @@ func (m *memory) Triples(ctx context.Context, lo *storage.LookupOptions, trpls c
 	selectedTrpls := applyGlobalTimeBounds(m.idx, ckr)
 
 	var err error
+	// The lookup options belong to the caller (who may share them between
+	// concurrent lookups): LatestAnchor is turned into a filter locally.
+	filterOptions := lo.FilterOptions
 	if lo.LatestAnchor {
-		if lo.FilterOptions != nil {
+		if filterOptions != nil {
 			return fmt.Errorf("cannot have LatestAnchor and FilterOptions used at the same time inside lookup options")
 		}
-		lo.FilterOptions = &filter.StorageOptions{
+		filterOptions = &filter.StorageOptions{
 			Operation: filter.Latest,
 			Field:     filter.PredicateField,
 		}
-		// To guarantee that "lo.FilterOptions" will be cleaned at the driver level, since it was artificially created at the driver level for "LatestAnchor".
-		defer func() {
-			lo.FilterOptions = (*filter.StorageOptions)(nil)
-		}()
 	}
-	if lo.FilterOptions != nil {
-		selectedTrpls, err = executeFilter(selectedTrpls, nil, lo.FilterOptions)
+	if filterOptions != nil {
+		selectedTrpls, err = executeFilter(selectedTrpls, nil, filterOptions)
 		if err != nil {
 			return err
 		}
